@@ -15,7 +15,7 @@ use std::time::UNIX_EPOCH;
 pub const META: Meta = Meta {
     id: "C14",
     level: "exploration",
-    rule: "Two-request histories, enumerated: entity ETag {absent, strong, weak, strong with ', '} x mtime {absent, epoch, whole second, +1 ms, +1 ns, 1 ns before the next second, now + 1 day, year 2200} x entity header sets {none, one, three incl. a duplicate name} x first request {plain, single Range, unsatisfiable Range, If-None-Match: *, failing If-Match, Range + matching If-Range} x second request echoing each of the 32 subsets of {ETag->If-None-Match, Last-Modified->If-Modified-Since, strong ETag->If-Match, Last-Modified->If-Unmodified-Since, strong ETag->If-Range + Range}; proptest for other mtimes, tags and header sets. Oracle: header invariants on response 1 (Accept-Ranges, ETag identity, Date/Last-Modified relation, entity headers present/absent by status) and the cache-friendly answer to request 2. Non-trivial = sub-second or future mtime, or >= 2 validators echoed; distinct by fingerprint of history.",
+    rule: "Two-request histories, enumerated: entity ETag {absent, strong, weak, strong with ', '} x mtime {absent, epoch, whole second, +1 ms, +1 ns, 1 ns before the next second, now + 1 day, year 2200} x entity header sets {none, one, three incl. a duplicate name} x first request {plain, single Range, unsatisfiable Range, If-None-Match: *, failing If-Match, Range + matching If-Range, multi-range falling back to 200 with and without matching If-Range, multipart with If-Range, Range + non-matching If-Range} x second request echoing each of the 32 subsets of {ETag->If-None-Match, Last-Modified->If-Modified-Since, strong ETag->If-Match, Last-Modified->If-Unmodified-Since, strong ETag->If-Range + Range}; proptest for other mtimes, tags and header sets. Oracle: header invariants on response 1 (Accept-Ranges, ETag identity, Date/Last-Modified relation, entity headers present/absent by status) and the cache-friendly answer to request 2. Non-trivial = sub-second or future mtime, or >= 2 validators echoed; distinct by fingerprint of history.",
     assumptions: &[
         "for modification times in the future the round trip is demanded only when the served Date did not move between the two requests (history re-run up to 3 times, otherwise counted as skipped)",
         "multipart 206 headers are C06's subject",
@@ -27,23 +27,26 @@ pub struct Hist {
     pub etag: Option<Bs>,
     pub mtime: Mtime,
     pub headers: Vec<(String, Bs)>,
-    /// 0 plain, 1 range, 2 unsatisfiable range, 3 INM *, 4 failing If-Match, 5 range + If-Range
+    /// 0 plain, 1 range, 2 unsatisfiable range, 3 INM *, 4 failing If-Match, 5 range + If-Range,
+    /// 6 several ranges that fall back to a complete 200, 7 the same with a matching If-Range,
+    /// 8 several small ranges (multipart) with a matching If-Range, 9 non-matching If-Range + range
     pub first: u8,
     /// bitmask: 1 INM, 2 IMS, 4 IM, 8 IUS, 16 If-Range+Range
     pub echo: u8,
 }
 
-const LEN: u64 = 64;
+const LEN: u64 = 64; // requests of shape 8 use an entity of 400 bytes so that multipart is chosen
 
 fn entity(h: &Hist) -> EntitySpec {
     EntitySpec {
-        len: LEN,
+        len: if h.first == 8 { 400 } else { LEN },
         etag: h.etag.clone(),
         mtime: h.mtime,
         headers: h.headers.clone(),
         plan: vec![PStep::Chunk(40)],
         faults: vec![],
         tail: vec![],
+        segments: 0,
     }
 }
 
@@ -58,6 +61,16 @@ fn first_request(h: &Hist) -> ReqSpec {
             Some(t) if !t.0.starts_with(b"W/") => r.with("range", "bytes=3-9").with("if-range", &t.0),
             _ => r.with("range", "bytes=3-9"),
         },
+        6 => r.with("range", "bytes=0-30,31-63"),
+        7 => match &h.etag {
+            Some(t) if !t.0.starts_with(b"W/") => r.with("range", "bytes=0-30, 31-63").with("if-range", &t.0),
+            _ => r.with("range", "bytes=0-30,40-"),
+        },
+        8 => match &h.etag {
+            Some(t) if !t.0.starts_with(b"W/") => r.with("range", "bytes=0-0,5-5").with("if-range", &t.0),
+            _ => r.with("range", "bytes=0-0,5-5"),
+        },
+        9 => r.with("range", "bytes=3-9").with("if-range", "\"some-other-tag\""),
         _ => r,
     }
 }
@@ -203,7 +216,7 @@ pub fn check(h: &Hist, acc: &mut Acc) -> Check {
             if used & 16 != 0 {
                 let cr = s2.head.one_str("content-range").ok().flatten();
                 ensure!(
-                    st2 == 206 && cr.as_deref() == Some(&format!("bytes 1-2/{LEN}")[..]) && s2.trace.body == crate::util::content(1, 2),
+                    st2 == 206 && cr.as_deref() == Some(&format!("bytes 1-2/{}", ent.len)[..]) && s2.trace.body == crate::util::content(1, 2),
                     format!("echo-if-range-not-206:{sig_echo}:{st2}"),
                     "echoing the strong ETag in If-Range must give the requested 206; {}",
                     what()
@@ -242,7 +255,7 @@ fn header_sets() -> Vec<Vec<(String, Bs)>> {
 }
 
 fn random_strategy() -> BoxedStrategy<Hist> {
-    (reqgen::etag_strategy(), reqgen::mtime_strategy(), reqgen::entity_headers_strategy(), 0u8..6, 0u8..32)
+    (reqgen::etag_strategy(), reqgen::mtime_strategy(), reqgen::entity_headers_strategy(), 0u8..10, 0u8..32)
         .prop_map(|(etag, mtime, headers, first, echo)| Hist {
             etag,
             mtime,
@@ -253,6 +266,39 @@ fn random_strategy() -> BoxedStrategy<Hist> {
         .boxed()
 }
 
+/// Header invariants of the first response on arbitrary generated requests (all six request
+/// headers, any entity length).
+fn check_any_request(c: &crate::props::c01::Case, acc: &mut Acc) -> Check {
+    if c.req.method != "GET" && c.req.method != "HEAD" {
+        return Ok(());
+    }
+    let Some(s1) = serve_case(&c.ent, &c.req, DrainOpts { extra_polls: 0, max_bytes: 0, max_frames: 0, ..Default::default() }).ok() else {
+        acc.count("aborted-by-panic-in-serve(see C13)");
+        return Ok(());
+    };
+    if !matches!(s1.head.status, 200 | 206 | 304 | 412 | 416) {
+        acc.count(&format!("status-{}-skipped", s1.head.status));
+        return Ok(());
+    }
+    let h = Hist {
+        etag: c.ent.etag.clone(),
+        mtime: c.ent.mtime,
+        headers: c.ent.headers.clone(),
+        first: 255,
+        echo: 0,
+    };
+    // entity headers with names serve() itself sets would be ambiguous: skip those entities
+    if c.ent.headers.iter().any(|(k, _)| ["content-length", "content-range", "etag", "date", "last-modified", "accept-ranges"].contains(&k.to_ascii_lowercase().as_str())) {
+        return Ok(());
+    }
+    check_first(&h, &c.ent, &s1.head, c.req.has("if-range")).map_err(|f| Fail {
+        sig: f.sig,
+        msg: format!("{}; request {:?}", f.msg, c.req.headers),
+    })?;
+    acc.note(&format!("any-request:{}", s1.head.status), true, fingerprint(c), || json!({"request": c.req, "status": s1.head.status, "headers": s1.head.headers}));
+    Ok(())
+}
+
 pub fn run_all(cx: &Cx) -> Acc {
     let mut acc = Acc::new();
     let mut units = Vec::new();
@@ -261,9 +307,9 @@ pub fn run_all(cx: &Cx) -> Acc {
             units.push((etag.clone(), m));
         }
     }
-    acc.merge(par_units(cx, "enumerated", &units, true, "etag x mtime x header sets x 6 first requests x 32 echo subsets", |cx, (etag, m), acc| {
+    acc.merge(par_units(cx, "enumerated", &units, true, "etag x mtime x header sets x 10 first requests x 32 echo subsets", |cx, (etag, m), acc| {
         for headers in header_sets() {
-            for first in 0..6 {
+            for first in 0..10 {
                 for echo in 0..32 {
                     let h = Hist {
                         etag: etag.clone(),
@@ -279,10 +325,24 @@ pub fn run_all(cx: &Cx) -> Acc {
     }));
     let n = cx.tier.pick(1u64, 20u64);
     acc.merge(par_proptest(cx, "random", 130_000 * n, random_strategy, |h, acc| check(h, acc)));
+    acc.merge(par_proptest(
+        cx,
+        "any-request",
+        150_000 * n,
+        || {
+            let p = reqgen::Profile { range: 7, if_range: 4, cond: 2, methods: false, max_specs: 4, multipart_bias: true };
+            reqgen::case_strategy(reqgen::len_strategy(), p).prop_map(|(ent, req)| crate::props::c01::Case { ent, req })
+        },
+        |c, acc| check_any_request(c, acc),
+    ));
     acc
 }
 
-pub fn replay(_cx: &Cx, _phase: &str, case: &Value, acc: &mut Acc) -> Check {
+pub fn replay(_cx: &Cx, phase: &str, case: &Value, acc: &mut Acc) -> Check {
+    if phase == "any-request" {
+        let c: crate::props::c01::Case = serde_json::from_value(case.clone()).map_err(|e| Fail { sig: "replay-decode".into(), msg: e.to_string() })?;
+        return check_any_request(&c, acc);
+    }
     let h: Hist = serde_json::from_value(case.clone()).map_err(|e| Fail {
         sig: "replay-decode".into(),
         msg: e.to_string(),
